@@ -91,6 +91,41 @@ def h_quantile_scale(ctx, n):
     ctx.claim('invariant_to_weight_scale', close(q1, q2))
 
 
+def h_quantile_fp_probe(ctx, n, direction):
+    """IEEE probe: doubles w_0..w_{n-1} whose normalised float cumulative sum ends below (above) 1.0 are asked from a
+    QF_FP query over numpy's operations (sequential sum, division, cumulative sum, round-to-nearest-even); the real
+    function runs on exactly those doubles at alpha = 1 and just below, and the definition is evaluated in rationals."""
+    from symx import fpprobe as fp
+    names = ['w%d' % i for i in range(n)]
+    tot = fp.seq_sum(names)
+    ps = ['(fp.div RNE %s %s)' % (w, tot) for w in names]
+    cum = fp.seq_sum(ps)
+    asserts = ['(fp.geq %s %s)' % (w, fp.const(0.5)) for w in names] + ['(fp.leq %s %s)' % (w, fp.const(4.0)) for w in names]
+    asserts.append('(%s %s %s)' % ('fp.lt' if direction == 'below' else 'fp.gt', cum, fp.const(1.0)))
+    verdict, vals = fp.solve(names, asserts, timeout_s=240)
+    ctx.note('QF_FP query (%d doubles, cumulative sum %s 1.0): %s' % (n, direction, verdict if verdict != 'unknown' else vals))
+    if verdict != 'sat':
+        # no adversarial input obtained: nothing is claimed (reported as a cut path, not as success of the probe)
+        raise core.Cut('float probe: solver answered %s' % verdict)
+    w = np.array([vals[k] for k in names], dtype=float)
+    cs = np.cumsum(w / np.sum(w))
+    ctx.claim('solver_model_has_the_requested_rounding_on_numpy', bool(cs[-1] < 1.0) if direction == 'below' else bool(cs[-1] > 1.0))
+    x = np.array([float(3 * i + 1) for i in range(n)][::-1])      # distinct, unsorted (descending)
+    W = sum(Fraction(v) for v in w)
+    for alpha in (1.0, float(np.nextafter(1.0, 0.0)), 0.5):
+        q = mu.weighted_sample_quantile(x.copy(), alpha, w.copy())
+        w_le = sum(Fraction(wi) for xi, wi in zip(x, w) if xi <= q)
+        w_lt = sum(Fraction(wi) for xi, wi in zip(x, w) if xi < q)
+        tag = 'alpha_%r' % alpha
+        ctx.claim(tag + '_q_in_sample', bool(any(q == xi for xi in x)))
+        ctx.claim(tag + '_weight_le_q_at_least_alpha', Fraction(alpha) * W <= w_le)
+        ctx.claim(tag + '_weight_lt_q_at_most_alpha', w_lt <= Fraction(alpha) * W)
+    q1 = mu.weighted_sample_quantile(x.copy(), 1.0, w.copy())
+    q0 = mu.weighted_sample_quantile(x.copy(), 0.99, w.copy())
+    ctx.claim('monotone_in_alpha_at_one', bool(q0 <= q1))
+    ctx.claim('quantile_at_one_is_the_maximum', bool(q1 == x.max()))
+
+
 # ---------------------------------------------------------------- variance / ESS
 
 def h_wvar(ctx, n, d, with_weights=True):
@@ -259,6 +294,11 @@ HARNESSES = [
     H('quantile_n3', h_quantile, dict(n=3), bounds='n=3'),
     H('quantile_n4', h_quantile, dict(n=4), bounds='n=4', tiers=('quick', 'thorough')),
     H('quantile_n5', h_quantile, dict(n=5), bounds='n=5', tiers=('thorough',)),
+    H('quantile_fp_probe_below_one', h_quantile_fp_probe, dict(n=3, direction='below'), witness=False,
+      bounds='IEEE probe: 3 doubles in [0.5,4] from a QF_FP query such that the float cumulative sum of the normalised weights '
+             'ends below 1.0; real function at alpha in {1, 1-ulp, 0.5}; witness search, no universal claim'),
+    H('quantile_fp_probe_above_one', h_quantile_fp_probe, dict(n=3, direction='above'), witness=False, tiers=('thorough',),
+      bounds='IEEE probe: as above with the cumulative sum ending above 1.0'),
     H('quantile_noweights_n3', h_quantile, dict(n=3, with_weights=False), bounds='n=3, weights=None'),
     H('quantile_noweights_n4', h_quantile, dict(n=4, with_weights=False), bounds='n=4, weights=None', tiers=('thorough',)),
     H('quantile_monotone_n2', h_quantile_monotone, dict(n=2), bounds='n=2, two alphas'),
